@@ -630,7 +630,7 @@ impl Sim {
                 assert_eq!(caps.len(), n);
                 self.events.push_back(Ev::Spawn { caller, function_index, captures: caps, argument: arg, heap });
             }
-            Action::Deliver { target, value } => {
+            Action::Deliver { target, value, .. } => {
                 let (message, heap) = self.ex[e].extract_heap_data(&value).map_err(|x| format!("extract {:?}", x))?;
                 self.emit_extract(e, &value, &message, &heap);
                 self.events.push_back(Ev::Deliver { target, message, heap });
